@@ -326,6 +326,10 @@ class Ctx:
                 if nd <= 50:
                     self.divergence(kind, a, x, y)
         self.count("corr:" + (label or kind), len(lines))
+        # keep a few cases of every kind for the single in-kernel cross-check made by finish()
+        kc = self.__dict__.setdefault("_kc_samples", [])
+        step = max(1, len(args) // 6)
+        kc.extend((kind, args[i], o2[i]) for i in range(0, len(args), step) if '"oom"' not in o2[i])
         return o1, o2
 
     def impl(self, kind, args, shards=16, env=None):
@@ -484,6 +488,11 @@ def jsonable(x):
 def finish(ctx, level, level_rule, trusted_base, assumptions, build_error=None):
     """Apply the verdict protocol (DESIGN 5), write evidence, print lines, return exit code."""
     pid = ctx.pid
+    if getattr(ctx, "_kc_samples", None) and build_error is None and not any("in-kernel" in n for n in ctx.notes):
+        try:
+            kernel_crosscheck(ctx, ctx._kc_samples, maxn=60)
+        except Exception as e:
+            ctx.notes.append("in-kernel cross-check could not run: %s" % e)
     known = load_known(pid)
     open_known = [k for k in known if k.get("status") == "open"]
     lines = []
